@@ -40,6 +40,8 @@ type vConn struct {
 	readErr  error // if set: returned once pos reaches readErrAt
 	errAt    int
 	deadline int
+	writeErr error // if set: writes fail once len(out) would exceed writeAt
+	writeAt  int
 }
 
 func (c *vConn) Read(p []byte) (int, error) {
@@ -81,6 +83,14 @@ func (c *vConn) Write(p []byte) (int, error) {
 	c.writes++
 	if c.closed > 0 {
 		return 0, net.ErrClosed
+	}
+	if c.writeErr != nil && len(c.out)+len(p) > c.writeAt {
+		n := c.writeAt - len(c.out)
+		if n < 0 {
+			n = 0
+		}
+		c.out = append(c.out, p[:n]...)
+		return n, c.writeErr
 	}
 	c.out = append(c.out, p...)
 	return len(p), nil
